@@ -55,6 +55,11 @@ func (t *responseTracker) Unwrap() http.ResponseWriter {
 	return t.ResponseWriter
 }
 
+// ErrCircuitOpen is returned (wrapped) by a proxy implementation that skipped an endpoint
+// because its circuit breaker is open. The endpoint was not contacted, so the retry loop
+// simply moves on to the next candidate.
+var ErrCircuitOpen = errors.New("circuit breaker open")
+
 // ProxyFunc defines the signature for endpoint proxy implementations
 type ProxyFunc func(ctx context.Context, w http.ResponseWriter, r *http.Request, endpoint *domain.Endpoint, stats *ports.RequestStats) error
 
@@ -104,6 +109,13 @@ func (h *RetryHandler) ExecuteWithRetry(
 
 		if lastErr == nil {
 			return nil
+		}
+
+		if errors.Is(lastErr, ErrCircuitOpen) && !tracked.started {
+			// The endpoint was skipped, not contacted: try the remaining candidates
+			// without recording a connection failure against it.
+			availableEndpoints = h.removeFailedEndpoint(availableEndpoints, endpoint)
+			continue
 		}
 
 		if !IsConnectionError(lastErr) {
